@@ -28,6 +28,28 @@ pub fn step(ctx: &Ctx, w: &World, ev: &mut Ev) {
     let engine = w.addrs.engine.clone();
     let ifund = w.addrs.insurance_fund.clone();
     let actor = w.resolve(&ctx.step.actor);
+    // the engine's cumulative premium fraction is the sum of the settlement premiums of the history - it moves in a
+    // settlement and nowhere else (reference: the harness's own running sum, kept by the runner)
+    for (i, vo) in ctx.post.vamms.iter().enumerate() {
+        if let Some(Some(c)) = ctx.model.cum_ref.get(i) {
+            let key = format!("cum{}", i);
+            if vo.ok && vo.cum != *c && !ev.poisoned.contains(&key) {
+                ev.poisoned.insert(key);
+                let settle = matches!(&ctx.step.op, Op::PayFunding { vamm } if *vamm == i);
+                ev.violation("cumulative_ne_history", if settle { "settlement" } else { ctx.step.op.kind() }, json!({"vamm": i, "engine_cumulative_fraction": vo.cum.to_string(), "sum_of_settlement_premiums": c.to_string(), "before_this_step": ctx.pre.vamms[i].cum.to_string()}));
+            }
+        }
+    }
+    // funding owed by a position, against that reference (the engine's own figure when no reference is available)
+    let owed = |obs: &crate::obs::Obs, v: usize, who: &str, d: U| -> Option<i128> {
+        match ctx.model.cum_ref.get(v).cloned().flatten() {
+            Some(c) if !ev_poisoned_cum(ctx, v) => {
+                let p = obs.position(v, who)?;
+                funding_owed(c, p.checkpoint, p.size, d)
+            }
+            _ => super::engine_refs::owed(obs, v, who, d),
+        }
+    };
     match &ctx.step.op {
         Op::PayFunding { vamm } => {
             let v = *vamm;
@@ -135,7 +157,7 @@ pub fn step(ctx: &Ctx, w: &World, ev: &mut Ev) {
                     // the same in cw20 and native worlds
                     let realised = pnl(pos.dir, class.q_close, pos.notional).unwrap_or(0);
                     let equity = pos.margin as i128 + realised - f;
-                    let fees = ctx.inflow(&ifund) as i128 + ctx.inflow(&ctx.pre.eng.as_ref().map(|e| e.fee_pool.clone()).unwrap_or_else(|| w.addrs.fee_pool.clone())) as i128;
+                    let fees = ctx.inflow(&ifund) as i128 + ctx.inflow(&ctx.model.fee_pool_ref.clone().unwrap_or_else(|| w.addrs.fee_pool.clone())) as i128;
                     let paid_total = -ctx.delta(&actor);
                     let new_margin = post.as_ref().map(|p| p.margin as i128).unwrap_or(0);
                     if equity < 0 {
@@ -280,4 +302,9 @@ pub fn step(ctx: &Ctx, w: &World, ev: &mut Ev) {
         }
         _ => {}
     }
+}
+
+/// in a settlement step the running sum already includes this step's premium; "owed before the step" must not
+fn ev_poisoned_cum(ctx: &Ctx, v: usize) -> bool {
+    matches!(&ctx.step.op, Op::PayFunding { vamm } if *vamm == v)
 }
